@@ -15,6 +15,7 @@ pub struct C01 {
     n_esc: u64,
     n_bytes: u64,
     n_modes: u64,
+    n_selectors: u64,
 }
 
 /// parameter vectors of the exhaustive part: none, one, or two values from this set
@@ -232,8 +233,51 @@ impl C01 {
             (self.bytes_case(k - self.n_table - self.n_esc), "bytes")
         } else if k < self.n_table + self.n_esc + self.n_bytes + self.n_modes {
             (self.modes_case(k - self.n_table - self.n_esc - self.n_bytes), "modes")
+        } else if k < self.n_table + self.n_esc + self.n_bytes + self.n_modes + self.n_selectors {
+            (self.selectors_case(k - self.n_table - self.n_esc - self.n_bytes - self.n_modes), "selectors")
         } else {
             (self.random_case(ctx, k), "random")
+        }
+    }
+
+    fn selectors_case(&self, k: u64) -> StreamCase {
+        // the small numbers that select an entry of a table (baud rates, fonts, colour spaces, report kinds, tab stops ...):
+        // every CSI final x intermediate with one parameter at each value 0..=40 - as the only one, behind a 0 and behind a
+        // 1 - followed by ordinary output. The table class draws its parameters from boundary values of the screen, which
+        // never name the last or the one-past-last entry of such a table
+        const INTER: [&str; 8] = ["", " ", "$", "*", "?", "=", "!", "<"];
+        let mut r = k;
+        let v = r % 41;
+        r /= 41;
+        let lead = r % 3;
+        r /= 3;
+        let fin = 0x40 + (r % 63) as u8;
+        r /= 63;
+        let inter = INTER[(r % 8) as usize];
+        let prefix_inter = matches!(inter, "?" | "=" | "!" | "<");
+        let mut bytes = b"\x1b[".to_vec();
+        if prefix_inter {
+            bytes.extend_from_slice(inter.as_bytes());
+        }
+        match lead {
+            0 => {}
+            1 => bytes.extend_from_slice(b"0;"),
+            _ => bytes.extend_from_slice(b"1;"),
+        }
+        bytes.extend_from_slice(v.to_string().as_bytes());
+        if !prefix_inter {
+            bytes.extend_from_slice(inter.as_bytes());
+        }
+        bytes.push(fin);
+        bytes.extend_from_slice(b"ab\r\ncd\x1b[6n\tg\n");
+        StreamCase {
+            emu: "ansi".into(),
+            music: 0,
+            w: 80,
+            h: 25,
+            alloc: false,
+            prefix: vec![],
+            bytes,
         }
     }
 
@@ -315,7 +359,7 @@ pub fn exec_stream(ctx: &mut Ctx, case: &StreamCase, class: &str, check_geometry
         ctx.note(format!("decode threads did not finish within 60s in case {}", ctx.cur_case));
     }
     // fingerprint of observed behaviour
-    let head: Vec<u8> = case.bytes.iter().take(if class == "table" || class == "esc" || class == "bytes" || class == "modes" { 12 } else { 3 }).copied().collect();
+    let head: Vec<u8> = case.bytes.iter().take(if class == "table" || class == "esc" || class == "bytes" || class == "modes" || class == "selectors" { 12 } else { 3 }).copied().collect();
     let fp = mix(
         mix(hash_str(&case.emu), (case.music as u64) << 40 | (case.alloc as u64) << 32 | (obs.kinds as u64) << 8 | (obs.scrollback_rows > 0) as u64),
         mix(crate::rng::hash_bytes(&head), (obs.panic.is_some() as u64) << 1 | (obs.errs > 0) as u64),
@@ -474,7 +518,7 @@ impl Prop for C01 {
         "C01"
     }
     fn rule(&self) -> &'static str {
-        "cases: (table) every CSI final 0x40..0x7E x 8 intermediates x parameter vectors of length <=2 over {absent,0,1,2,h-1,h,h+1,w,w+1,255,9999} x 8 state prefixes x 4 screens (x 4 music options in thorough), enumerated; (esc) ESC + every byte x prefixes x screens; (bytes) every byte, lead-in+byte, lead-in+X+byte for all 10 emulations on 3 states; (modes) every mode number 0..=2100 set / reset / queried with and without '?' followed by output at the right margin and report requests, on a fresh and a scrolled screen; (random) seeded grammar / raw / mutated / long streams on sizes 1..132 x 1..60 with scrollback. A case is one stream fed character by character through BufferParser::print_char under catch_unwind. distinct_nontrivial = distinct (emulation, music option, allocation, result-kind set {Err,Update,NoUpdate,SendString,Beep,PlayMusic,Resize}, scrollback present, stream head, panicked, returned-Err) fingerprints observed"
+        "cases: (table) every CSI final 0x40..0x7E x 8 intermediates x parameter vectors of length <=2 over {absent,0,1,2,h-1,h,h+1,w,w+1,255,9999} x 8 state prefixes x 4 screens (x 4 music options in thorough), enumerated; (esc) ESC + every byte x prefixes x screens; (bytes) every byte, lead-in+byte, lead-in+X+byte for all 10 emulations on 3 states; (modes) every mode number 0..=2100 set / reset / queried with and without '?' followed by output at the right margin and report requests, on a fresh and a scrolled screen; (selectors) every CSI final x 8 intermediates with one parameter at each value 0..=40, alone and behind a 0 or a 1 (the small numbers that select a table entry: baud rates, fonts, report kinds ...); (random) seeded grammar / raw / mutated / long streams on sizes 1..132 x 1..60 with scrollback. A case is one stream fed character by character through BufferParser::print_char under catch_unwind. distinct_nontrivial = distinct (emulation, music option, allocation, result-kind set {Err,Update,NoUpdate,SendString,Beep,PlayMusic,Resize}, scrollback present, stream head, panicked, returned-Err) fingerprints observed"
     }
     fn meta(&self, _ctx: &Ctx) -> Value {
         json!({"floor_evaluations": 10000, "floor_distinct": 500, "plain_pass": "quick",
@@ -489,7 +533,8 @@ impl Prop for C01 {
         self.n_esc = 256 * N_PREFIXES * 4;
         self.n_bytes = 256 * 3 * 3 * 10;
         self.n_modes = 6 * 2101 * 2;
-        self.n_table + self.n_esc + self.n_bytes + self.n_modes + ctx.tier.pick(60_000, 3_000_000)
+        self.n_selectors = 41 * 3 * 63 * 8;
+        self.n_table + self.n_esc + self.n_bytes + self.n_modes + self.n_selectors + ctx.tier.pick(60_000, 3_000_000)
     }
     fn run_case(&mut self, ctx: &mut Ctx, k: u64) {
         let (case, class) = self.case_for(ctx, k);
